@@ -39,6 +39,13 @@ def corrupt(o):
 def run(tier: str, seed: int) -> int:
     chk = Check("C01", tier, seed, "model_checking")
     chk.model_check("MC_Render", "MC_Render.cfg" if tier == "quick" else "MC_Render_thorough.cfg")
+    chk.model_check("MC_Deferred")
+    from .. import tlc as _tlc
+
+    neg = _tlc.run_tlc("MC_Deferred", "MC_Deferred_negative.cfg", workers=4, check_ok=False)
+    if neg.invariant_violated != "AlwaysMeansTree":
+        raise _tlc.MachineryError("negative control: the design of deferred parts outside a conjunction not refuted")
+    chk.coverage["negative_control"] = {"cfg": "MC_Deferred_negative.cfg (deferred predicate below OR / a negated group)", "refuted_invariant": neg.invariant_violated}
     n = NPROC
     cases = chk.generate("Gen_C01", shards=list(range(n)), env={"VERIF_NSHARDS": n})
     obs = drive("harness.props.c01", "drive_case", cases)
